@@ -38,7 +38,7 @@ Class(T, opt) ==
     [] T.k = "bytes" -> IF opt \in {"", "intern"} THEN "accept" ELSE "either"
     [] T.k = "time" -> IF opt \in {"", "intern"} THEN "accept" ELSE "either"             \* finding F17: must not silently lose data
     [] T.k = "null" -> IF opt \in {"", "intern"} THEN "accept" ELSE "either"
-    [] T.k = "ptr" -> IF T.e.k \in {"ptr", "map"} THEN Worst("either", Class(T.e, opt)) ELSE Class(T.e, opt)
+    [] T.k = "ptr" -> IF T.e.k \in {"ptr", "map", "null"} THEN Worst("either", Class(T.e, opt)) ELSE Class(T.e, opt)
     [] T.k = "slice" ->
          LET ec == Class(T.e, "")  rc == RawClass(T.e) IN
          IF rc \in {"slice", "bad"} THEN "reject"                           \* slices of slices of length-delimited elements, of maps
@@ -64,7 +64,8 @@ ClassField(f) ==
               ELSE Worst(IF f.pt.idx = 0 THEN "either" ELSE "accept", Class(f.t, f.pt.opt))
 DupIdx(fs) == \E a, b \in 1..Len(fs) : a < b /\ Encoded(fs[a]) /\ Encoded(fs[b]) /\ fs[a].pt.idx = fs[b].pt.idx /\ fs[a].pt.idx >= 0
 
-Classify(T) == Class(T, "")
+\* a null type has no presence representation at the top level, nor behind a pointer (double presence): the statement leaves both open
+Classify(T) == IF T.k = "null" THEN Worst("either", Class(T, "")) ELSE Class(T, "")
 
 \* the codec-level view of a definition (what PlencTypes.Bake expects): fields get enc / i / opt from the abstract tag
 RECURSIVE ToCodecType(_)
